@@ -482,10 +482,9 @@ def plan(tier):
             runs.append((scen, 2, 'critical', 2))
             runs.append((scen, 2, 'all', 1))
             runs.append((scen, 3, 'critical', 2))
-        # the two long scenarios (thousands of scheduling points per execution): one pre-emption anywhere, two at the
-        # critical points, every start order
-        runs += [('deepchain', 2, 'all', 1), ('deepchain', 2, 'critical', 2), ('deepchain', 3, 'shared', 1),
-                 ('cachefill', 2, 'shared', 1), ('cachefill', 3, 'shared', 1), ('cachefill', 2, 'critical', 2)]
+        # the two long scenarios (thousands of scheduling points per execution): one pre-emption, every start order
+        runs += [('deepchain', 2, 'all', 1), ('deepchain', 2, 'shared', 1), ('deepchain', 3, 'critical', 1),
+                 ('cachefill', 2, 'shared', 1), ('cachefill', 2, 'critical', 1)]
     return runs
 
 
